@@ -151,6 +151,10 @@ def build(dspec):
             snake += [(i, j) for j in (range(g) if i % 2 == 0 else range(g - 1, -1, -1))]
         mazes = [SolvedMaze(connection_list=cl.copy(), solution=np.array(snake[:k]), generation_meta=None) for k in ks]
         return MazeDataset(MazeDatasetConfig(name="long", grid_n=g, n_mazes=len(ks), seed=5), mazes), None
+    if dspec[0] == "kept":
+        from . import c05_chain
+
+        return c05_chain.kept_datasets()[dspec[1]], None
     if dspec[0] == "empty":
         return MazeDataset(MazeDatasetConfig(name="empty", grid_n=dspec[1], n_mazes=0, seed=3), []), None
     _, g, pat, mode = dspec
@@ -429,6 +433,9 @@ MEMBER_KINDS = {
     "D": ("gen", "gen_wilson", 4, 1, 1040, "per_maze_meta"),
     "E": ("empty", 2),
     "F": ("craft", 3, "x2", "per_maze_meta"),
+    # two members with the same maze count, grid and longest solution but different mazes (e.g. train / validation splits)
+    "G": ("kept", "A", "no_generation_meta"),
+    "H": ("kept", "B", "no_generation_meta"),
 }
 COLL_THRESHOLDS = (None, 0, 1, 2, 3, 100)
 WIRINGS = ("shared", "copied", "generate")
@@ -440,6 +447,7 @@ def collection_specs(tier):
     tuples = ["".join(p) for k in range(1, maxlen + 1) for p in itertools.product(kinds, repeat=k)]
     if tier == "quick":
         tuples += ["ABE", "EAD", "DCA", "AAA", "BEA", "CEB"]
+    tuples += ["GH", "HG", "GHG", "GAH"]
     out = []
     for tup in tuples:
         for t in COLL_THRESHOLDS:
